@@ -127,7 +127,7 @@ inductive Res (α : Type) where
   | ok (a : α)
   | err
   | panic
-  deriving Repr
+  deriving Repr, DecidableEq
 
 /-- `encoding.StringHexToPoint(suite, s)`: the hex text must hold a point of the suite -/
 def decPoint (S : Suite) (k : Key) : Option Bytes :=
@@ -264,9 +264,13 @@ def httpsPrefix : Str := [104, 116, 116, 112, 115, 58, 47, 47]
 def fmtInt (n : Int) : Str :=
   if n < 0 then 45 :: C20.fmtNat n.natAbs else C20.fmtNat n.natAbs
 
-/-- `LoadCothority` (suite defaulting) + `GetServerIdentity` -/
+/-- `LoadCothority` (config.go:71-84) after the TOML decoding: an empty suite name means Ed25519.
+`CothorityConfig.Save` writes the structure as it is, so save-then-load is this function too. -/
+def loadCothority (hc : PrivCfg) : PrivCfg := { hc with suite := defaultSuite hc.suite }
+
+/-- `CothorityConfig.GetServerIdentity` (config.go:86-123) -/
 def getServerIdentity (suites : List Suite) (reg : List (Str × Suite)) (hc : PrivCfg) : Res ServerId :=
-  match findSuite suites (defaultSuite hc.suite) with
+  match findSuite suites hc.suite with
   | none => .err
   | some S =>
     match getHex hc.priv S.ssize with            -- ReadHexScalar: UnmarshalBinary's error is dropped
@@ -400,7 +404,7 @@ def step (s : State) (toks : List String) : State × String :=
       | some wk, some sv, some _, some _ =>
         let hc : PrivCfg := { suite := su, pub := { s := p, ok := ok }, priv := pr, address := a,
                               description := d, url := u, wsKey := wk, services := sv }
-        (s, match getServerIdentity s.suites s.reg hc with
+        (s, match getServerIdentity s.suites s.reg (loadCothority hc) with
             | .ok si => showGroup [si]
             | .err => "err"
             | .panic => "panic")
